@@ -63,6 +63,18 @@ def templates(n, m='m2'):
     out.append(('content-uses-local', doc({'tag': 'x', 'define': [['local', n, py('2')]],
                                            'content': ['text', py('show(%s)' % n)], 'children': ['k']}, P('1')),
                 [[n, 'maybe3', 0]]))
+    # a failure handled by tal:on-error ends the scope of everything the failed content had bound
+    L = lambda k: {'interp': py('L(%d)' % k)}   # noqa: E731
+    fb = ['text', py("'E'")]
+    out.append(('guarded-define', doc(P('0'), {'tag': 'x', 'onerror': fb, 'children': [
+        {'tag': 'y', 'define': [['local', n, py('2')]], 'children': [P('1'), L(0)]}, 'tail']}, P('2')),
+        [[n, 'maybe3', 1], [0, 'out3', 0]]))
+    out.append(('guarded-repeat', doc(P('0'), {'tag': 'x', 'onerror': fb, 'children': [
+        {'tag': 'y', 'indent': 4, 'repeat': [n, py('seq')], 'children': [P('1'), L(0)]}, 'tail']}, P('2')),
+        [[n, 'maybe3', 1], ['seq', 'lenN', 2], [0, 'out3', 0]]))
+    out.append(('guarded-nested-fallback-fails', doc(P('0'), {'tag': 'x', 'onerror': fb, 'children': [
+        {'tag': 'y', 'onerror': ['text', py('L(1)')], 'define': [['local', n, py('2')]], 'children': [L(0)]}, 'tail']}, P('2')),
+        [[n, 'maybe3', 2], [0, 'out3', 0], [1, 'out3', 1]]))
     return out
 
 
@@ -113,9 +125,12 @@ def plan(tier, seed):
     names = POOL if not quick else POOL[:6]
     for n in names:
         for label, prog, vars_ in templates(n):
-            if quick and n not in ('a', 'len') and label not in ('nested-local', 'repeat', 'global', 'nested-identical-define', 'nested-identical-tuple-repeat', 'lambda-parameter'):
+            if quick and n not in ('a', 'len') and label not in ('nested-local', 'repeat', 'global', 'nested-identical-define', 'nested-identical-tuple-repeat', 'lambda-parameter', 'guarded-define'):
                 continue
             jobs.append({'prog': prog, 'vars': vars_, 'label': '%s:%s' % (n, label)})
+    for label, prog, vars_ in templates('error'):
+        if label.startswith('guarded-'):
+            jobs.append({'prog': prog, 'vars': vars_, 'label': 'error:%s' % label})
     mut = {'prog': templates('a')[0][1], 'vars': templates('a')[0][2]}
     famG = dict(name='scoping_templates', module=HG, fn='H', jobs=jobs, timeout=300 if quick else 900,
                 batch=3, vacuity=1, program_key='prog',
@@ -147,7 +162,7 @@ def plan(tier, seed):
                    'chameleon.utils:Scope.__iter__', 'chameleon.utils:Scope.copy', 'chameleon.utils:Scope.set_global',
                    'chameleon.utils:Scope.get_name', 'chameleon.compiler:Compiler.visit_UseInternalMacro',
                    'chameleon.compiler:Compiler.visit_UseExternalMacro'],
-        bounds=('%d scoping templates (9 nesting patterns of define local/global, repeat, condition, incl. textually identical clauses on nested elements; depth <= 3) over '
+        bounds=('%d scoping templates (9 nesting patterns of define local/global, repeat, condition, incl. textually identical clauses on nested elements; depth <= 3; bindings made inside content whose failure a tal:on-error handles, also for the name error itself) over '
                 'the name pool %s with the name initially unbound / None / 5, define values int, repeat length 0..3 or '
                 'None; Scope: all sequences of %s operations (local set / global set / delete / copy) on a root, its copy '
                 'and the copy of the copy, keys from a 2-name pool, values unbounded ints; reserved-name predicate on %d '
